@@ -38,6 +38,11 @@ def parse(text: str, statement_stream_processor: "StatementStreamProcessor", *, 
         raise ex
     except parsimonious.ParseError as ex:
         raise DSDLSyntaxError("Syntax error", line=int(ex.line())) from None  # type: ignore
+    except RecursionError:
+        # Both the grammar and the parse tree are processed by recursive descent, and definitions that depend on
+        # other definitions are processed by recursive parser instances, so the depth of nesting that can be handled
+        # is limited by the call stack. Running out of it is a limitation to be reported, not an internal error.
+        raise DSDLSyntaxError("The definition is nested too deeply to be processed") from None
     except parsimonious.VisitationError as ex:  # pragma: no cover
         # noinspection PyBroadException
         try:
@@ -134,7 +139,7 @@ class _ParseTreeProcessor(parsimonious.NodeVisitor):
 
     # Intentional exceptions that shall not be treated as parse errors.
     # Beware that those might be propagated from recursive parser instances!
-    unwrapped_exceptions = (_error.Error, SystemError, MemoryError, SystemExit)  # type: ignore
+    unwrapped_exceptions = (_error.Error, SystemError, MemoryError, SystemExit, RecursionError)  # type: ignore
 
     def __init__(self, statement_stream_processor: StatementStreamProcessor, *, strict: bool):
         assert isinstance(statement_stream_processor, StatementStreamProcessor)
